@@ -233,7 +233,12 @@ class MessageManager(interfaces.TokenInterface, interfaces.MessageManager):
 
         key = (message.remote, message.mid)
         if key in self._recent_messages:
-            self._recent_messages[key] = message
+            # A snapshot, not the object itself: the application may hand the
+            # same Message to several requests (eg. a pre-built response), and
+            # the token, remote, message ID and type are rewritten on every
+            # use; the reply repeated for a duplicate must stay what was sent
+            # for this message ID.
+            self._recent_messages[key] = message.copy()
 
     #
     # coap dispatch, message-type sublayer: retransmission handling
